@@ -449,16 +449,33 @@ def r09_3(ctx, rr):
     W.run()
     t = W.T.term(lc.body.get("expr"))
     la, lb = ("call", "len", (a,)), ("call", "len", (b_,))
-    ok = False
+    # every pair the function can return: (.., a[i].cmp(&b[i])) at the first difference, (.., a.len().cmp(&b.len()))
+    # when one string is a prefix of the other -- whatever the control flow that picks between them
     found = tshow(t)[:300]
-    if t[0] == "ite":
-        th, el = t[2], t[3]
-        if th[0] == "tup" and el[0] == "tup" and len(th) == 3 and len(el) == 3:
-            c1 = th[2]
-            c2 = el[2]
-            ok1 = c1[0] == "call" and c1[1] == "Ord::cmp" and c1[2][0][0] == "index" and c1[2][0][1] == a and c1[2][1][0] == "index" and c1[2][1][1] == b_
-            ok2 = c2 == ("call", "Ord::cmp", (la, lb))
-            ok = ok1 and ok2
+    seconds = []
+    for n in walk(lc.body):
+        if n.get("k") == "Tup" and len(n.get("es", [])) == 2:
+            seconds.append(W.expand(W.T.term(n["es"][1])))
+    kinds = set()
+    _T0 = Termizer(F, lc)
+    _lets = {str(n_["pat"]["id"]): _T0.term(n_["init"]) for n_ in walk(lc.body) if n_.get("k") == "LetStmt" and n_["pat"].get("k") == "PBind" and "init" in n_}
+
+    def _origin(z):
+        return _lets.get(str(z[2]).split("#")[0], z) if z[0] == "var" else z
+    for c in seconds:
+        if c[0] == "call" and c[1] == "Ord::cmp" and len(c[2]) == 2:
+            x, y = _origin(c[2][0]), _origin(c[2][1])
+            if x[0] == "index" and y[0] == "index" and x[1] == a and y[1] == b_ and x[2] == y[2]:
+                kinds.add("byte")
+            elif (x, y) == (la, lb):
+                kinds.add("len")
+            elif all(mentions(z, lambda w: w[0] == "call" and isinstance(w[1], str) and w[1].endswith("from_be_bytes")) for z in (x, y)) and mentions(x, lambda w: w == a) and mentions(y, lambda w: w == b_):
+                kinds.add("word-be")    # whole words loaded big-endian order like their bytes (R09.7 checks the loads)
+            else:
+                kinds.add("other:" + tshow(c)[:60])
+        else:
+            kinds.add("other:" + tshow(c)[:60])
+    ok = {"byte", "len"} <= kinds <= {"byte", "len", "word-be"}
     rr.instances += 1
     rr.check(ok, "longest_common_prefix:order", "longest_common_prefix(a, b) must order by the first differing byte and, when one string is a prefix of the other, by the two *lengths* (a.len().cmp(&b.len())); found %s" % found, lc.span)
     # min_len = min(len a, len b) bounds the scan
@@ -470,7 +487,9 @@ def r09_3(ctx, rr):
         # the scan loop is bounded by it
         bounded = any(x.get("k") == "Path" and x.get("id") == mid for x in walk(lc.body) if x is not mins[0]["pat"])
     rr.instances += 1
-    rr.check(bool(mins) and bounded, "longest_common_prefix:min_len", "the scan must be bounded by min(a.len(), b.len())", lc.span)
+    # ... or the two strings are walked in lockstep (zip stops at the shorter one)
+    zipped = any(n.get("k") == "MethodCall" and n["name"] == "zip" and mentions(Tlc.term(n["recv"]), lambda x: x in (a, b_)) and n.get("args") and mentions(Tlc.term(n["args"][0]), lambda x: x in (a, b_)) for n in walk(lc.body))
+    rr.check((bool(mins) and bounded) or zipped, "longest_common_prefix:min_len", "the scan must be bounded by min(a.len(), b.len())", lc.span)
     pb = F.one(r"^dict::rear_coded_list::RearCodedListBuilder::push$")
     pslf = ("var", "self", pb.params[0]["id"])
     clears = []
